@@ -586,6 +586,9 @@ def _immutable(d):
         return True          # a sentinel: it has no state to share
     if isinstance(d, ast.BinOp):
         return _immutable(d.left) and _immutable(d.right)
+    if isinstance(d, ast.Call) and ((isinstance(d.func, ast.Name) and d.func.id in ('namedtuple', 'NamedTuple')) or
+                                    (isinstance(d.func, ast.Attribute) and d.func.attr in ('namedtuple', 'NamedTuple'))):
+        return True          # a record type: a class definition, not state
     return False
 
 
